@@ -5,6 +5,15 @@ calls = list_all_files / list_files_in_folder / list_files_filtered over a filte
 dimension deviations) / the *_since helpers; transport = fake request_func serving Graph URLs from the tree.
 Fault exploration: run healthy to learn the n requests, then every (k, kind) (thorough: every pair), each followed by a
 healthy retry on the same client. Reference = plain walk over the tree with the documented filter semantics.
+
+Instant representations (a date bound / an item timestamp denotes an INSTANT, however it is spelled): every date bound of
+every filter dimension and of the *_since helpers is also given as an aware datetime in each zone of ZONES (fixed UTC
+offsets, minutes: quick +02:00 -05:00 +05:30; thorough also +00:00-as-non-singleton, +14:00 and -12:00 which move the
+calendar date), windows (after, before) over every ordered value pair x every ordered pair of distinct zones, and one
+tzinfo subclass that is not datetime.timezone; item timestamps are also served spelled with a numeric offset instead of
+'Z' (SPELL_SCHEMES: which offset each item gets), with and without fractional seconds. The reference compares instants.
+A date value in a case is either `ms` (offset from T0 in ms, bound given in UTC) or `[ms, zone_minutes]` / `[ms, zone_minutes,
+"sub"]` (same instant, bound expressed in that zone / through the tzinfo subclass). Naive bounds are outside the space.
 """
 from __future__ import annotations
 
@@ -15,7 +24,7 @@ import json
 import os
 import random
 import urllib.parse
-from datetime import datetime, timedelta, timezone
+from datetime import datetime, timedelta, timezone, tzinfo
 from urllib.error import HTTPError, URLError
 
 from verif.mc import pool as P
@@ -26,6 +35,11 @@ T0 = datetime(2024, 1, 15, 10, 30, 0, tzinfo=timezone.utc)
 TIMES = ["2024-01-15T10:29:59Z", "2024-01-15T10:30:00Z", "2024-01-15T10:30:01Z", "2024-01-15T10:30:00.500Z", None]
 FILE_NAMES = ["a.pdf", "B.PDF", "x y.docx", "\u00fc&#.txt", "a.tar.gz", "n.docx"]
 FOLDER_NAMES = ["A", "B", "C d", "E%"]
+# zones (UTC offset in minutes) in which date bounds and item timestamps are expressed; the instant never changes
+ZONES_QUICK = [120, -300, 330]
+ZONES_THOROUGH = [120, -300, 330, 0, 840, -720]
+# item timestamp spelling schemes: scheme s serves item number idx (timestamp index ti) in zone SPELL_ZONES[(idx + ti + s) % len]
+SPELL_ZONES = [120, 0, -300, 330, 840, -720]
 FAULT_KINDS = ["http400", "http401", "http404", "http429", "http500", "http503", "urlerror", "badjson", "status302", "status500"]
 
 
@@ -132,6 +146,10 @@ class Transport:
         if variant != "nodates":
             it["lastModifiedDateTime"] = TIMES[ti]
             it["createdDateTime"] = TIMES[(ti + 1) % 4]
+            sp = self.extras.get("tzspell")
+            if sp is not None:
+                it["lastModifiedDateTime"] = spell(TIMES[ti], SPELL_ZONES[(idx + ti + sp) % len(SPELL_ZONES)])
+                it["createdDateTime"] = spell(TIMES[(ti + 1) % 4], SPELL_ZONES[(idx + ti + sp + 1) % len(SPELL_ZONES)])
         if variant == "fields":
             it["listItem"] = {"fields": {"Dept": "X", "id": "1"}}
         return it
@@ -232,8 +250,49 @@ def _dt(s):
     return datetime.fromisoformat(s)
 
 
+def spell(z_string, zone_min):
+    """Re-spell a '...Z' timestamp as the same instant with a numeric UTC offset (fraction kept verbatim)."""
+    body = z_string[:-1]
+    frac = ""
+    if "." in body:
+        body, frac = body.split(".", 1)
+        frac = "." + frac
+    local = datetime.fromisoformat(body) + timedelta(minutes=zone_min)
+    sign = "-" if zone_min < 0 else "+"
+    return f"{local.isoformat()}{frac}{sign}{abs(zone_min) // 60:02d}:{abs(zone_min) % 60:02d}"
+
+
+class SubZone(tzinfo):
+    """A fixed-offset tzinfo that is not a datetime.timezone instance (what pytz / dateutil / zoneinfo users pass)."""
+
+    def __init__(self, minutes):
+        self._off = timedelta(minutes=minutes)
+
+    def utcoffset(self, dt):
+        return self._off
+
+    def dst(self, dt):
+        return timedelta(0)
+
+    def tzname(self, dt):
+        return "SUB"
+
+
+def ms_of(v):
+    """date value of a case -> ms offset from T0 (the instant), whatever zone it is expressed in"""
+    return v[0] if isinstance(v, (list, tuple)) else v
+
+
+def bound(v):
+    """date value of a case -> the aware datetime handed to the library"""
+    if isinstance(v, (list, tuple)):
+        tz = SubZone(v[1]) if len(v) > 2 and v[2] == "sub" else timezone(timedelta(minutes=v[1]))
+        return (T0 + timedelta(milliseconds=v[0])).astimezone(tz)
+    return T0 + timedelta(milliseconds=v)
+
+
 def ref_filtered(lib, flt):
-    """flt: dict of FileFilter fields (datetimes as offsets in ms from T0 or None)"""
+    """flt: dict of FileFilter fields (date values: ms from T0 | [ms, zone_minutes(, "sub")] | None, see ms_of / bound)"""
     out = []
     roots = flt.get("folder_paths") or [None]
     for fp in roots:
@@ -251,6 +310,8 @@ def ref_filtered(lib, flt):
             ok = True
             for fld, val in (("created", cre), ("modified", mod)):
                 after, before = flt.get(fld + "_after"), flt.get(fld + "_before")
+                after = None if after is None else ms_of(after)
+                before = None if before is None else ms_of(before)
                 if after is not None or before is not None:
                     if val is None:
                         ok = False
@@ -307,7 +368,7 @@ def make_filter(flt):
     kw = {}
     for k in ("modified_after", "modified_before", "created_after", "created_before"):
         if flt.get(k) is not None:
-            kw[k] = T0 + timedelta(milliseconds=flt[k])
+            kw[k] = bound(flt[k])
     for k in ("extensions", "path_patterns", "folder_paths"):
         kw[k] = list(flt.get(k) or [])
     return FileFilter(**kw)
@@ -324,9 +385,9 @@ def do_call(client, call):
     elif kind == "filtered":
         res = list(client.list_files_filtered(make_filter(call[1])))
     elif kind == "modified_since":
-        res = list(client.list_files_modified_since(T0 + timedelta(milliseconds=call[1]), folder_paths=call[2] or None, extensions=call[3] or None))
+        res = list(client.list_files_modified_since(bound(call[1]), folder_paths=call[2] or None, extensions=call[3] or None))
     elif kind == "created_since":
-        res = list(client.list_files_created_since(T0 + timedelta(milliseconds=call[1]), folder_paths=call[2] or None, extensions=call[3] or None))
+        res = list(client.list_files_created_since(bound(call[1]), folder_paths=call[2] or None, extensions=call[3] or None))
     else:
         raise ValueError(kind)
     return [(r.parent_path, r.name) for r in res]
@@ -450,9 +511,27 @@ def shrinks(case):
         for k, v in call[1].items():
             if v not in (None, []):
                 f2 = dict(call[1])
-                f2[k] = None if not isinstance(v, list) else []
+                f2[k] = None if (not isinstance(v, list) or k.endswith(("_after", "_before"))) else []
                 c = dict(case)
                 c["call"] = ["filtered", f2]
+                yield c
+        for k, v in call[1].items():                      # a zoned bound -> the same instant in UTC / in a plain timezone
+            if isinstance(v, list) and k.endswith(("_after", "_before")):
+                for simpler in [v[0]] + ([v[:2]] if len(v) > 2 else []):
+                    f2 = dict(call[1])
+                    f2[k] = simpler
+                    c = dict(case)
+                    c["call"] = ["filtered", f2]
+                    yield c
+    if call[0] in ("modified_since", "created_since"):
+        if isinstance(call[1], list):
+            c = dict(case)
+            c["call"] = [call[0], call[1][0]] + list(call[2:])
+            yield c
+        for i in (2, 3):
+            if call[i]:
+                c = dict(case)
+                c["call"] = list(call[:i]) + [[]] + list(call[i + 1:])
                 yield c
     if case.get("extras"):
         c = dict(case)
@@ -460,8 +539,34 @@ def shrinks(case):
         yield c
 
 
+def _zclass(v):
+    """identity of a date value in a finding: the instant and the direction of the zone, not the concrete offset"""
+    if isinstance(v, (list, tuple)) and len(v) >= 2 and isinstance(v[1], int) and not isinstance(v[0], (list, str)):
+        return [v[0], "east" if v[1] > 0 else "west" if v[1] < 0 else "zero"] + list(v[2:])
+    return v
+
+
+def fingerprint_view(case):
+    """the concrete UTC offset of a zoned bound and the concrete spelling scheme are not part of a finding's identity"""
+    c = dict(case)
+    call = list(c["call"])
+    if call[0] == "filtered":
+        call[1] = {k: (_zclass(v) if k.endswith(("_after", "_before")) else v) for k, v in call[1].items()}
+    elif call[0] in ("modified_since", "created_since"):
+        call[1] = _zclass(call[1])
+    c["call"] = call
+    if (c.get("extras") or {}).get("tzspell") is not None:
+        c["extras"] = dict(c["extras"], tzspell="any")
+    return c
+
+
 def embeds(small, big):
     from verif.mc.findings import embeds as E
+    small, big = fingerprint_view(small), fingerprint_view(big)
+    if small.get("extras") and small["extras"] != (big.get("extras") or {}):
+        return False
+    if small["call"][0] in ("modified_since", "created_since") and small["call"][1] != big["call"][1]:
+        return False
     if small["call"][0] != big["call"][0]:
         return False
     fs, fb = small.get("faults") or {}, big.get("faults") or {}
@@ -497,9 +602,85 @@ def calls_for(tier, lib):
         yield ["created_since", since, ["A"], [".pdf"]]
 
 
+def zone_calls(tier):
+    """Date bounds expressed in non-UTC zones (same instants as DATE_VALUES): every date dimension x value x zone, the *_since
+    helpers, (after, before) windows over every value pair x ordered pair of distinct zones, and a non-`timezone` tzinfo."""
+    quick = tier == "quick"
+    zones = ZONES_QUICK if quick else ZONES_THOROUGH
+    base = {k: v[0] for k, v in FILTER_DIMS.items()}
+    vals = DATE_VALUES[1:]
+    for dim in ("modified_after", "modified_before", "created_after", "created_before"):
+        for v in vals:
+            for z in zones:
+                f = dict(base)
+                f[dim] = [v, z]
+                yield ["filtered", f]
+            f = dict(base)
+            f[dim] = [v, zones[(vals.index(v)) % len(zones)], "sub"]
+            yield ["filtered", f]
+    for fld in ("modified", "created"):
+        for va, vb in itertools.permutations(vals, 2):
+            if not quick or va < vb:                     # thorough: empty / inverted windows too
+                for za, zb in itertools.permutations(zones, 2):
+                    f = dict(base)
+                    f[fld + "_after"] = [va, za]
+                    f[fld + "_before"] = [vb, zb]
+                    yield ["filtered", f]
+                f = dict(base)                            # one bound zoned, the other in UTC
+                f[fld + "_after"] = [va, zones[0]]
+                f[fld + "_before"] = vb
+                yield ["filtered", f]
+    for since in (-1000, 0, 1000, 500):
+        for z in zones:
+            yield ["modified_since", [since, z], [], []]
+            yield ["created_since", [since, z], ["A"], [".pdf"]]
+            yield ["created_since", [since, z], [], []]
+    # zoned date bound x the non-date dimensions (the date test comes first in the predicate: interplay with the rest)
+    for dim, v, z in (("modified_after", 0, zones[0]), ("created_before", 1000, zones[1])):
+        for other in ("extensions", "path_patterns", "folder_paths"):
+            for vo in FILTER_DIMS[other][1:]:
+                f = dict(base)
+                f[dim] = [v, z]
+                f[other] = vo
+                yield ["filtered", f]
+
+
+def spell_calls(tier):
+    """Calls evaluated against libraries whose item timestamps are spelled with numeric offsets (extras tzspell)."""
+    quick = tier == "quick"
+    zones = ZONES_QUICK if quick else ZONES_THOROUGH
+    base = {k: v[0] for k, v in FILTER_DIMS.items()}
+    yield ["all"]
+    for dim in ("modified_after", "modified_before", "created_after", "created_before"):
+        for v in DATE_VALUES[1:]:
+            f = dict(base)
+            f[dim] = v
+            yield ["filtered", f]
+            for z in (zones[:1] if quick else zones):
+                f = dict(base)
+                f[dim] = [v, z]
+                yield ["filtered", f]
+    for va, vb in ((-1000, 1000), (0, 1000), (0, 500), (-1000, 0)):
+        for fld in ("modified", "created"):
+            f = dict(base)
+            f[fld + "_after"] = va
+            f[fld + "_before"] = [vb, zones[1]]
+            yield ["filtered", f]
+    for since in (-1000, 0, 1000):
+        yield ["modified_since", since, [], []]
+        yield ["created_since", [since, zones[2]], [], []]
+
+
 FAULT_CALLS = [["all"], ["folder", "A"], ["filtered", {"folder_paths": ["A"], "extensions": [".pdf"], "modified_after": 0, "modified_before": None,
                                                          "created_after": None, "created_before": None, "path_patterns": []}],
                ["modified_since", 0, ["A/B"], []]]
+
+
+def _folders(kids):
+    for k in kids:
+        if k[0] == "d":
+            yield k
+            yield from _folders(k[2])
 
 
 def _part(arg):
@@ -526,6 +707,28 @@ def _part(arg):
                 outs["healthy:" + str(info.get("out"))] = outs.get("healthy:" + str(info.get("out")), 0) + 1
                 for clause, msg in f:
                     fails.append((clause, "healthy", case, msg))
+            # instants: date bounds expressed in other zones, item timestamps spelled with numeric offsets (the date predicate is
+            # independent of pagination: one page size)
+            nfolders = sum(1 for _ in _folders(lib))
+            ztier = tier if (quick or nfolders <= 3) else ("quick" if i % 3 == 0 else None)   # thorough: deep alphabet on <= 3 folders
+            if page == pages[-1] and ztier:
+                for call in zone_calls(ztier):
+                    case = {"lib": lib, "page": page, "call": call}
+                    f, info = run_case(case)
+                    ev += 1
+                    requests += info.get("n", 0)
+                    outs["zoned:" + str(info.get("out"))] = outs.get("zoned:" + str(info.get("out")), 0) + 1
+                    for clause, msg in f:
+                        fails.append((clause, "healthy", case, msg))
+                for sp in (range(2) if ztier == "quick" else range(len(SPELL_ZONES))):
+                    for call in spell_calls(ztier):
+                        case = {"lib": lib, "page": page, "call": call, "extras": {"tzspell": sp}}
+                        f, info = run_case(case)
+                        ev += 1
+                        requests += info.get("n", 0)
+                        outs["spelled:" + str(info.get("out"))] = outs.get("spelled:" + str(info.get("out")), 0) + 1
+                        for clause, msg in f:
+                            fails.append((clause, "healthy", case, msg))
             # extras: non-dict item, item without facet
             for extras in ({"nondict": 1}, {"nofacet": 1}):
                 case = {"lib": lib, "page": page, "call": ["all"], "extras": extras}
@@ -591,11 +794,19 @@ def run(ctx):
            "rule": "every rooted ordered folder tree with <= K folders (K=3 quick, 4 thorough) x 0..2 files per folder x page sizes; calls: "
                    "list_all_files, list_files_in_folder, list_files_filtered over the filter lattice (baseline + all 1- (quick: selected 2-) / "
                    "2-dimension deviations), *_since helpers; for 4 representative calls every request index x 10 fault kinds (thorough: pairs) "
-                   "followed by a healthy retry; distinct_nontrivial = distinct (phase, fault kind, outcome) classes",
+                   "followed by a healthy retry; instants: every date dimension x value x zone (fixed UTC offsets, minutes: "
+                   + str(ZONES_QUICK if ctx.quick else ZONES_THOROUGH) + ") incl. a non-timezone tzinfo, *_since helpers x zone, (after, before) windows x "
+                   "ordered pairs of distinct zones, zoned bound x non-date dimensions; item timestamps spelled with numeric offsets ("
+                   + str(2 if ctx.quick else len(SPELL_ZONES)) + " spelling schemes over offsets " + str(SPELL_ZONES) + ") x date filters; "
+                   "distinct_nontrivial = distinct (phase, fault kind, outcome) classes",
            "transport_requests": req, "outcomes": outs, "samples": samples[:5], "exhaustive": True,
-           "bounds": {"folders": 3 if ctx.quick else 4, "files_per_folder": 2, "page_sizes": "1..2" if ctx.quick else "1..3", "fault_depth": 1 if ctx.quick else 2}}
+           "bounds": {"folders": 3 if ctx.quick else 4, "files_per_folder": 2, "page_sizes": "1..2" if ctx.quick else "1..3", "fault_depth": 1 if ctx.quick else 2,
+                      "bound_zones_min": ZONES_QUICK if ctx.quick else ZONES_THOROUGH, "item_offset_spellings": 2 if ctx.quick else len(SPELL_ZONES),
+                      "zoned_calls_per_library": len(list(zone_calls(ctx.tier))), "spelled_calls_per_library_and_scheme": len(list(spell_calls(ctx.tier)))}}
     return {"coverage": cov, "failures": fails, "harness_errors": herr,
             "assumptions": ["fake transport models Graph children / root:/path / token / site-id URLs with skip-style nextLink",
                             "HTTP 404 at the folder-lookup request is documented 'folder not found' behaviour and is not judged",
                             "fractional seconds are truncated by the client's ISO parser (its docstring says so); the reference compares truncated values",
-                            "pattern semantics = fnmatchcase on the full path (statement: patterns apply to the full path)"]}
+                            "pattern semantics = fnmatchcase on the full path (statement: patterns apply to the full path)",
+                            "an aware datetime bound and an ISO-8601 timestamp with a numeric offset denote instants; the filters are judged on instants. "
+                            "Naive (tz-less) bounds have no defined instant and are not explored"]}
